@@ -101,7 +101,7 @@ def _fr_float(x):
     if x != x or x in (float('inf'), float('-inf')):
         raise Undecidable('non-finite float constant')
     # decimal literals in source (0.5, 1e-4, 2.0) are meant as exact rationals
-    return Fr(repr(x)) if 'e' not in repr(x) and 'E' not in repr(x) else Fr(x).limit_denominator(10 ** 30)
+    return Fr(repr(x))      # the decimal literal is meant exactly (also for 1e-12, 2.2e-308)
 
 
 class Undecidable(Exception):
